@@ -83,7 +83,7 @@ impl Prop for C10 {
         "C10"
     }
     fn cases(&self, tier: Tier) -> u64 {
-        tier.pick(800_000, 3_000_000)
+        tier.pick(800_000, 20_000_000)
     }
     fn strategy(&self, _tier: Tier) -> BoxedStrategy<Case> {
         let plat = prop_oneof![4 => -60.0..=60.0f64, 1 => Just(48.5), 1 => prop_oneof![Just(60.0), Just(-60.0), Just(0.0), Just(-48.5)]];
